@@ -17,6 +17,22 @@ type Clause struct {
 	Src  string
 	File string
 	Line int
+	Only []string // at_call clauses: generated only under these properties (nil: always)
+}
+
+// currentProp: the property being checked (call-site clauses may be restricted to properties).
+var currentProp string
+
+func (c Clause) applies() bool {
+	if len(c.Only) == 0 || currentProp == "" {
+		return true
+	}
+	for _, p := range c.Only {
+		if p == currentProp {
+			return true
+		}
+	}
+	return false
 }
 
 type LoopSpec struct {
@@ -334,8 +350,14 @@ func parseContractFile(path, pkgPath string) (*ContractFile, error) {
 			addClause(&tmp, after, ln+1)
 			cc := cur
 			callee := fields[1]
+			var only []string
+			// at_call Callee@C13,C06 requires ...: the clause is generated only under those properties
+			if k := strings.Index(callee, "@"); k >= 0 {
+				only = strings.Split(callee[k+1:], ",")
+				callee = callee[:k]
+			}
 			pp := pend[len(pend)-1]
-			copyBack = append(copyBack, func() { cc.AtCall[callee] = append(cc.AtCall[callee], *pp.c) })
+			copyBack = append(copyBack, func() { cl := *pp.c; cl.Only = only; cc.AtCall[callee] = append(cc.AtCall[callee], cl) })
 			curSlot = pp // continuation lines allowed
 		case "impl":
 			// impl <interface type name> <concrete type>
